@@ -199,16 +199,16 @@ def evalOp (j : Json) : R Json := do
       let rows ← rowsJ.mapM (fun r => r.mapM parsePV)
       pure (Json.mkObj [
         ("bound", Json.arr (rows.map (fun xs => optJ pvJ (Sem PyAlg p' xs))).toArray),
-        ("spec", Json.arr (rows.map (fun xs => optJ pvJ (specialised PyAlg p.declTy p kv xs))).toArray)])
+        ("spec", Json.arr (rows.map (fun xs => optJ pvJ (specialised PyAlg p.keptTy p kv xs))).toArray)])
     else
       let rty ← parseTy (← j.getObjVal? "rty")
       let rows ← rowsJ.mapM (fun r => r.mapM parseWV)
       let fin : Option WV → Json := fun v => optJ wvJ (v.bind (wRet rty))
       pure (Json.mkObj [
         ("bound", Json.arr (rows.map (fun xs => fin (Sem (WAlg q) p' xs))).toArray),
-        ("spec", Json.arr (rows.map (fun xs => fin (specialised (WAlg q) p.declTy p kv xs))).toArray),
+        ("spec", Json.arr (rows.map (fun xs => fin (specialised (WAlg q) p.keptTy p kv xs))).toArray),
         ("spec_untyped", Json.arr (rows.map
-            (fun xs => fin (specialised (WAlg q) (fun _ => none) p kv xs))).toArray)])
+            (fun xs => fin (specialised (WAlg q) (fun _ _ => none) p kv xs))).toArray)])
 
 /-- `c08.toval`: the AST `to_val` builds for a keyword value -/
 def tovalOp (j : Json) : R Json := do
